@@ -430,27 +430,28 @@ Proof.
   revert n. induction l as [|x l IH]; intros n; [reflexivity|]. rewrite ents_cons. simpl. by rewrite IH.
 Qed.
 
-Lemma rep_find (s : store) l cid :
-  rep_inv s l cid -> (length l <= 256)%nat -> sfind (pR :: cid) s = rents cid 0 l.
+Lemma rents_sorted cid l : forall i0, StronglySorted bytes_lt (map fst (rents cid i0 l)).
 Proof.
-  intros Hinv Hlen. apply sfind_unique.
-  - (* keys strictly increasing: the index byte *)
-    assert (H : forall i0, (i0 + length l <= 256)%nat -> StronglySorted bytes_lt (map fst (rents cid i0 l))).
-    { clear Hinv Hlen. induction l as [|r l IH]; intros i0 Hl; [constructor|].
-      rewrite rents_cons. simpl. constructor; [apply IH; simpl in Hl; lia|].
-      apply Forall_forall. intros k ([k' v] & -> & Hin)%elem_of_list_fmap.
-      apply elem_of_rents in Hin as (t & r' & -> & Ht & _). apply lookup_lt_Some in Ht. simpl in Hl.
-      change (pR :: cid ++ [N.of_nat i0]) with ((pR :: cid) ++ [N.of_nat i0]).
-      change (pR :: cid ++ [N.of_nat (S i0 + t)]) with ((pR :: cid) ++ [N.of_nat (S i0 + t)]).
-      apply bytes_lt_app_l, bytes_lt_single. lia. }
-    apply H. simpl. lia.
-  - intros k val. rewrite elem_of_rents. split.
-    + intros (t & r & -> & Ht & ->). split.
-      * apply (proj2 (Hinv _ _)). exists t. split; [reflexivity|]. by rewrite Ht.
-      * apply (is_prefix_refl_app (pR :: cid)).
-    + intros [Hs Hp]. destruct (proj1 (Hinv k val) (conj Hp Hs)) as (i & -> & Hi).
-      destruct (l !! i) as [r|] eqn:Er; [|discriminate]. injection Hi as <-.
-      exists i, r. split; [reflexivity|]. split; [exact Er|reflexivity].
+  induction l as [|r l IH]; intros i0; [constructor|].
+  rewrite rents_cons. simpl. constructor; [apply IH|].
+  apply Forall_forall. intros k ([k' v] & -> & Hin)%elem_of_list_fmap.
+  apply elem_of_rents in Hin as (t & r' & -> & Ht & _).
+  change (pR :: cid ++ [N.of_nat i0]) with ((pR :: cid) ++ [N.of_nat i0]).
+  change (pR :: cid ++ [N.of_nat (S i0 + t)]) with ((pR :: cid) ++ [N.of_nat (S i0 + t)]).
+  apply bytes_lt_app_l, bytes_lt_single. lia.
+Qed.
+
+Lemma rep_find (s : store) l cid :
+  rep_inv s l cid -> sfind (pR :: cid) s = rents cid 0 l.
+Proof.
+  intros Hinv. apply sfind_unique; [apply rents_sorted|].
+  intros k val. rewrite elem_of_rents. split.
+  - intros (t & r & -> & Ht & ->). split.
+    + apply (proj2 (Hinv _ _)). exists t. split; [reflexivity|]. by rewrite Ht.
+    + apply (is_prefix_refl_app (pR :: cid)).
+  - intros [Hs Hp]. destruct (proj1 (Hinv k val) (conj Hp Hs)) as (i & -> & Hi).
+    destruct (l !! i) as [r|] eqn:Er; [|discriminate]. injection Hi as <-.
+    exists i, r. split; [reflexivity|]. split; [exact Er|reflexivity].
 Qed.
 
 (** * Reads *)
@@ -487,7 +488,7 @@ Lemma reps_spec s a cid :
   replicas_numbers s cid = Halt (map int_to_bytes (areps a cid)).
 Proof.
   intros HR Hwf Hc. unfold replicas_numbers, hash256_len. rewrite Hc. simpl.
-  rewrite (rep_find s _ cid (rc_r _ _ _ HR) (proj1 (wf_reps _ _ Hwf))). by rewrite map_snd_rents.
+  rewrite (rep_find s _ cid (rc_r _ _ _ HR)). by rewrite map_snd_rents.
 Qed.
 
 Lemma pending_spec s a cid v :
